@@ -159,7 +159,8 @@ def frame(buf: bytes, closed: bool, methods: list):
 # requests and behaviours
 
 BEHAVIOURS = ["ok", "ok", "ok", "fclose", "read", "http", "exc", "timeout", "none", "stream", "stream_exc", "cancel",
-              "stream_http", "swallow"]        # the last two were defects until ff054f9 / ba690df
+              "stream_http", "swallow",        # these two were defects until ff054f9 / ba690df
+              "stream_timeout"]
 DEFECT_BEHAVIOURS = ["stream_other"]
 
 
@@ -392,7 +393,7 @@ class Conn:
             return None, "Fr1500"
         if kind == "cancel":
             raise asyncio.CancelledError()
-        if kind in ("stream", "stream_exc", "stream_http", "stream_other"):
+        if kind in ("stream", "stream_exc", "stream_http", "stream_other", "stream_timeout"):
             r = web.StreamResponse(headers=hdr)
             if request.version < (1, 1):
                 r.content_length = len(text)
@@ -406,6 +407,8 @@ class Conn:
                 raise RuntimeError("scripted failure after streaming started")
             if kind == "stream_http":
                 raise web.HTTPNotFound()
+            if kind == "stream_timeout":
+                raise asyncio.TimeoutError()
             if kind == "stream_other":
                 return web.Response(text="other"), "Fr1200"     # a fresh response object, not the one that was started
             await r.write(text[1:].encode())
@@ -522,6 +525,33 @@ class Conn:
         elif k == "drain":
             self.drain()
             return
+        elif k == "eof":
+            # the peer half-closes: eof_received(); a false return value makes asyncio close the transport
+            if self.tr.closed:
+                return
+            self.events.append("P")
+            try:
+                keep = self.proto.eof_received()
+            except BaseException as e:  # noqa
+                self.escapes.append(f"eof_received raised {type(e).__name__}: {e}")
+                keep = False
+            if not keep:
+                self.tr.close()
+        elif k == "burst":
+            # several segments handed over back to back, without the loop running in between (TLS records of one read,
+            # proactor-style transports)
+            for h in st[1]:
+                if self.tr.closed:
+                    break
+                if not self.tr.reading and self.honour_pause:
+                    self.pending.append(bytes.fromhex(h))
+                    continue
+                try:
+                    self.proto.data_received(bytes.fromhex(h))
+                except BaseException as e:  # noqa
+                    self.escapes.append(f"data_received raised {type(e).__name__}: {e}")
+                self.max_q = max(self.max_q, len(self.proto._messages))
+                self.max_msgs = max(self.max_msgs, self.count_msgs())
         elif k == "shutdown":
             # Server.pre_shutdown() + Server.shutdown(timeout), as AppRunner.cleanup() does; runs as its own task, the
             # following ticks let its grace periods expire
@@ -530,7 +560,7 @@ class Conn:
             self.shutdown_task = self.loop.create_task(srv.shutdown(float(st[1])))
         elif k == "close":
             # Server.pre_shutdown(): conn.close() -- only while a handler is in flight (the idle case is C20's finding)
-            if self.active is None or self.tr.closed:
+            if self.tr.closed:
                 return
             self.closed_at_invoked = self.invoked
             self.proto.close()
@@ -903,7 +933,7 @@ def gen_case(rng, allow_defects=True, depth=None):
             elif x < 0.9:
                 steps.append(["tick", rng.choice([1, 5, 9, 10, 11, 74, 75, 76, 200])])
             elif x < 0.96:
-                steps.append(["peer"])
+                steps.append(["peer"] if rng.random() < 0.5 else ["eof"])
             else:
                 steps.append(["tick", 0])
     for _ in range(rng.choice([0, 1, 2, 4])):
@@ -1230,6 +1260,10 @@ def gen_shutdown_case(rng):
     no queued request may be started afterwards."""
     n = rng.randint(2, 6)
     beh = {"0": {"kind": rng.choice(["ok", "http", "stream"]), "block": True}}
+    if rng.random() < 0.25:
+        # idle keep-alive connection: close() closes the transport at once (009879e)
+        return {"suite": "shutdown", "beh": {}, "ka": KA, "linger": LINGER, "nreq": 1,
+                "steps": [["data", _plain(0).hex()], ["drain"], ["close"], ["tick", 1]]}
     steps = [["data", b"".join(_plain(i) for i in range(n)).hex()], ["close"], ["rel"], ["rel"]]
     if rng.random() < 0.3:
         steps.insert(1, ["data", _plain(n).hex()])
@@ -1303,6 +1337,58 @@ def gen_srvshutdown_case(rng, fixed=None):
     return {"suite": "srvshutdown", "beh": beh, "steps": steps, "ka": KA, "linger": LINGER}
 
 
+def gen_halfclose_case(rng):
+    """The peer half-closes (FIN -> eof_received) at any point of a request, in particular in the middle of a body
+    (Content-Length or chunked) while the handler reads it, ignores it or has not been released yet."""
+    chunked = rng.random() < 0.5
+    lead = rng.randint(0, 2)
+    data = b"".join(_plain(i) for i in range(lead))
+    if chunked:
+        head = (f"POST /r/{lead} HTTP/1.1\r\nHost: x\r\nTransfer-Encoding: chunked\r\n\r\n").encode()
+        body = b"5\r\nabcde\r\n3\r\nxyz\r\n0\r\n\r\n"
+    else:
+        head = (f"POST /r/{lead} HTTP/1.1\r\nHost: x\r\nContent-Length: 12\r\n\r\n").encode()
+        body = b"abcdefghijkl"
+    k = rng.randint(0, len(body) - 1)
+    if rng.random() < 0.15:
+        k = -rng.randint(1, len(head) - 1)          # FIN inside the header block
+    stream = data + head + body
+    cutpos = len(data) + len(head) + k
+    beh = {str(lead): {"kind": rng.choice(["read", "read", "ok", "http", "stream"])}}
+    if rng.random() < 0.4:
+        beh[str(lead)]["block"] = True
+    steps = [["data", c.hex()] for c in cut(rng, stream[:cutpos], 2)] + [["eof"], ["rel"], ["tick", 11]]
+    return {"suite": "halfclose", "beh": beh, "steps": steps, "ka": KA, "linger": LINGER}
+
+
+def gen_burst_case(rng):
+    """Idle connection, several request-completing segments delivered back to back before start() runs again."""
+    n = rng.randint(2, 6)
+    warm = rng.random() < 0.4
+    segs, i = [], (1 if warm else 0)
+    for _ in range(n):
+        k = rng.choice([1, 1, 2])
+        seg = b"".join(_plain(i + j) for j in range(k))
+        i += k
+        segs.append(seg)
+    nreq = i
+    if rng.random() < 0.25:
+        segs.insert(rng.randint(1, len(segs)), rng.choice(BAD_ELEMENTS[:6]))
+        nreq = None
+    beh = {}
+    if rng.random() < 0.3:
+        beh["1" if warm else "0"] = {"kind": "ok", "block": True}
+    steps = []
+    if warm:
+        steps.append(["data", _plain(0).hex()])        # an earlier request, answered: the connection is idle keep-alive
+        steps.append(["drain"])
+    steps += [["burst", [x.hex() for x in segs]], ["rel"], ["rel"]]
+    c = {"suite": "burst", "beh": beh, "steps": steps, "ka": KA, "linger": LINGER}
+    if nreq is not None:
+        c["nreq"] = nreq
+    return c
+
+
 def gen_upgrade_body_case(rng, fixed=None):
     """An Upgrade request WITH a body whose handler answers (declining) before the body has fully arrived; the upgrade takes
     effect in the parser when the body ends.  Requests behind it must still be answered (or the connection closed)."""
@@ -1354,12 +1440,12 @@ def suite_special(ctx):
     for name in sorted(os.listdir(cpath)) if os.path.isdir(cpath) else []:
         payload = json.load(open(os.path.join(cpath, name)))
         c = payload.get("case", payload)
-        if c.get("suite") in ("upgrade", "pause", "ws", "latebad", "badenc", "shutdown", "nonutf8", "srvshutdown"):
+        if c.get("suite") in ("upgrade", "pause", "ws", "latebad", "badenc", "shutdown", "nonutf8", "srvshutdown", "halfclose", "burst"):
             cases.append(c)
     cases += special_fixed_cases(rng)
-    n = 360 if ctx.quick else 7200
+    n = 440 if ctx.quick else 8800
     gens = (gen_upgrade_case, gen_pause_case, gen_ws_case, gen_latebad_case, gen_badenc_case, gen_shutdown_case,
-            gen_nonutf8_case, gen_srvshutdown_case, gen_upgrade_body_case)
+            gen_nonutf8_case, gen_srvshutdown_case, gen_upgrade_body_case, gen_halfclose_case, gen_burst_case)
     for k in range(n):
         cases.append(gens[k % len(gens)](rng))
     for c in cases:
